@@ -45,7 +45,7 @@ def run_sharded(ctx, variant, lines, shards=12, timeout_ms=6000, mem_mb=None):
     return res
 
 
-def classify(ans):
+def classify(ans, mem_limit_mb=400):
     """None when the call completed with a value or an SQF diagnostic; else what went wrong"""
     if ans is None:
         return 'no answer from the harness'
@@ -56,7 +56,7 @@ def classify(ans):
         if f.get('res') not in ('empty', 'runtime_error', 'ok', 'limit', 'timeout_error'):
             return 'the VM ended in state %s' % f.get('res')
         try:
-            if int(f.get('dmem', '0')) > 400:
+            if int(f.get('dmem', '0')) > mem_limit_mb:
                 return 'resident memory grew by %s MB' % f['dmem']
         except ValueError:
             pass
@@ -88,9 +88,15 @@ def run(ctx):
     worst = {}
     for variant, mem in variants:
         res = run_sharded(ctx, variant, lines, mem_mb=mem)
+        # the sanitizer's allocator keeps freed memory in quarantine: growth of the resident set means less there
+        limit = 400 if variant == 'rel' else 2500
+        # a time-out may be the machine's (many processes side by side): such cases run once more, one at a time, with a wide limit
+        again = [i for i in range(len(cases)) if (res.get('c%d' % i) or 'timeout').startswith('timeout') or res.get('c%d' % i) is None]
+        if again:
+            res.update(run_sharded(ctx, variant, [lines[i] for i in again], shards=2, timeout_ms=30000, mem_mb=mem))
         bad_here = 0
         for i, (sig, t, s) in enumerate(cases):
-            c = classify(res.get('c%d' % i))
+            c = classify(res.get('c%d' % i), limit)
             if c:
                 bad_here += 1
                 key = (sig[1], c.split(':')[0])
